@@ -103,6 +103,25 @@ CLAIMS['C10'] = dict(
     technique='pairing / cross-link / typestate-of-lookup rules on the AST '
     'with boolean path facts', engine='E6-mesh')
 
+CLAIMS['C17'] = dict(
+    category='other',
+    text='Effect and ordering rules over the three assembly paths, the '
+    'pool dispatchers and the two cached methods: same call per entry on '
+    'every path with rows=test/cols=trial, globals handed over before a '
+    'pool that is created per call, order-preserving pool API over '
+    'range(n), cache digest depending on curve and every element list with '
+    'lossless element reprs and distinct curve reprs, load in a '
+    'swallow-and-recompute try, best-effort save, inline path cache-free.  '
+    'Decides schedule- and crash-point-independence structurally; bitwise '
+    'float equality is not decided.',
+    design_ref='DESIGN.md section 3 E7/E8, section 4 C17',
+    note='Trusted: ast, fork semantics (workers see globals as of pool '
+    'creation), float repr round-trip.  Not decided: md5 collisions; a '
+    'corrupt file that still loads with the right shape.',
+    technique='effect/ordering analysis on the AST: def-use of globals vs '
+    'pool creation, who-may-call pool API, cache-key dependence, try/except '
+    'discipline', engine='E8-effects')
+
 PENDING = 'rule set not yet implemented in this build (see DESIGN.md Appendix F for the order)'
 NA = {
     'C13':
@@ -122,6 +141,9 @@ ENGINES = [
     ('E6-mesh', 'stbem_static/stale.py',
      'refinement-driver provenance analysis (stale.py) and mesh discipline '
      'rules (meshrules.py)'),
+    ('E8-effects', 'stbem_static/effects.py',
+     'pools, module globals, cache key and cache I/O discipline; '
+     'indexing.py for index spaces'),
     ('E3-causal', 'stbem_static/causal.py',
      'causality guards and time-difference positivity over absint.py '
      '(path facts, Fourier-Motzkin entailment); kernels.py CAS certificates; '
